@@ -165,6 +165,18 @@ func userProbe(r *Rng) ([]byte, []int) {
 		line("end")
 		q = "Shop::"
 	}
+	// two classes whose names differ only in case, and (below) constants that do not exist:
+	// what a listing of "every class" prints for them
+	line("class Json")
+	line("  def dump(x)")
+	line("    x")
+	line("  end")
+	line("end")
+	line("class JSON")
+	line("  def self.parse(s)")
+	line("    s")
+	line("  end")
+	line("end")
 	doc("")
 	line("def helper(x)")
 	line("  x")
@@ -187,6 +199,10 @@ func userProbe(r *Rng) ([]byte, []int) {
 	call("b.greet(\"z\")")
 	call("helper(1)")
 	call("combo(g, g)")
+	call("Js::X")
+	call("Nope")
+	call("JSON.")
+	call("Jso")
 	call("g.")
 	call(q + "Greeter.")
 	call("g.sh")
